@@ -402,6 +402,20 @@ def rust_files(repo):
             if f.endswith(".rs"):
                 yield os.path.join(root, f)
 
+FIXTURES = os.path.join(os.path.dirname(os.path.dirname(os.path.abspath(__file__))), "spec", "derive_fixtures.rs")
+
+def make_local(s, src):
+    """a struct that is not reachable by a public path: copied into the harness with its codec functions"""
+    s["rust_path"] = None
+    s["local_fns"] = {}
+    for f in s["fields"]:
+        for fn in (f["ser_fn"], f["de_fn"]):
+            if fn:
+                mm = re.search(r"\bfn\s+" + re.escape(fn) + r"\b", src)
+                if mm:
+                    k = src.index("{", mm.start())
+                    s["local_fns"][fn] = src[mm.start():match_close(src, k, "{", "}") + 1]
+
 def collect(repo):
     structs = []
     for path in rust_files(repo):
@@ -421,18 +435,17 @@ def collect(repo):
             if mod is None:
                 counts[s["name"]] = counts.get(s["name"], 0) + 1
                 s["id"] = f"convert_test_{s['name']}_{counts[s['name']]}"
-                s["rust_path"] = None
-                s["local_fns"] = {}
-                for f in s["fields"]:
-                    for fn in (f["ser_fn"], f["de_fn"]):
-                        if fn:
-                            mm = re.search(r"\bfn\s+" + re.escape(fn) + r"\b", src)
-                            if mm:
-                                k = src.index("{", mm.start())
-                                s["local_fns"][fn] = src[mm.start():match_close(src, k, "{", "}") + 1]
+                make_local(s, src)
             else:
                 s["id"] = (mod + "::" + s["name"]).replace("::", "_")
                 s["rust_path"] = mod + "::" + s["name"]
+            structs.append(s)
+    # fixture structs kept beside the translator (attribute shapes the workspace does not use)
+    if os.path.exists(FIXTURES):
+        found, src = extract_structs(open(FIXTURES, encoding="utf-8").read(), "spec/derive_fixtures.rs")
+        for s in found:
+            s["id"] = "fixture_" + s["name"]
+            make_local(s, src)
             structs.append(s)
     ids = [s["id"] for s in structs]
     if len(set(ids)) != len(ids):
